@@ -11,3 +11,5 @@ def rules(ctx):
     S.c02_r5_free_leaves_caches(ctx)
 
     S.compaction_target_rules(ctx)
+    S.buddy_split_rules(ctx)
+    S.replaced_range_rules(ctx)
